@@ -96,13 +96,20 @@ def main():
     jobs = [("main", "BobBuild", "BobBuild.cfg" if quick else "BobBuild_thorough.cfg", dict(coverage=True, timeout=3000))]
     jobs += [("reach:" + inv, "BobBuild", "BobBuild_reach_%s.cfg" % inv, dict(timeout=900)) for inv in ("ReachPruneThenOk", "ReachSkip")]
     jobs += [("weak:" + w, "BobBuild", "BobBuild_weak_%s.cfg" % w, dict(timeout=1800)) for w in WEAK]
-    jobs += [("gen", "BobBuild", "BobBuild_gen.cfg", dict(workers=1, simulate="num=%d" % num, depth=160, seed=a.seed + 1, timeout=900))]
+    jobs += [("gen", "BobBuild", "BobBuild_gen.cfg", dict(workers=1, simulate="num=%d" % num, depth=160, seed=a.seed + 1, timeout=900)),
+             # aborts inside and between plain / --build-only / --force invocations (BobBuild.tla Flags)
+             ("flags", "BobBuild", "BobBuild_flags.cfg" if quick else "BobBuild_flags_thorough.cfg", dict(timeout=3000)),
+             ("genflags", "BobBuild", "BobBuild_gen_flags.cfg",
+              dict(workers=1, simulate="num=%d" % (80 if quick else 500), depth=200, seed=a.seed + 7, timeout=900))]
     out = tlc.run_many(jobs, parallel=5)
     res = out["main"]
     rep.add_tlc(res, "BobBuild exhaustive (Weak={})")
     if res.violated:
         rep.violation("model:" + res.violated, {"cex": [c[0] for c in res.cex]})
     tlc.require_coverage(res, ACTIONS, "BobBuild.cfg")
+    rep.add_tlc(out["flags"], "BobBuild exhaustive, aborts with plain/--build-only/--force invocations")
+    if out["flags"].violated:
+        rep.violation("model:flags:" + out["flags"].violated, {"cex": [c[0] for c in out["flags"].cex]})
     for inv in ("ReachPruneThenOk", "ReachSkip"):
         if out["reach:" + inv].violated != inv:
             raise tlc.TlcError("vacuity: %s not reachable" % inv)
@@ -117,61 +124,16 @@ def main():
         rep.extra.setdefault("weakened_model_counterexamples", {})[w] = {"found": len(r.printed), "replayed": len(sel)}
         behaviours += [(h, "cex:" + w) for h in sel]
     g = out["gen"]
-    sel = select(g.printed, 36 if quick else 250, rng,
+    sel = select(g.printed, 30 if quick else 250, rng,
                  need=lambda h: any(x["a"] in ("Kill", "Fail") for x in h) and any(x["a"] == "End" for x in h))
     behaviours += [(h, "simulate") for h in sel]
     rep.extra["simulated"] = {"generated": len(g.printed), "replayed": len(sel)}
-    cache = common.scratch("vf-c05-oracle-")
-    r = replay_task((0, d["hist"], d.get("origin", "replay"), d.get("mode") == "release", d.get("jobs", 1), cache,
-                     d.get("kill_at_event")))
-    for sig, detail in r["violations"]:
-        print("VIOLATION property=%s replay=%s" % (PROP, path))
-        print("  signature: %s" % sig)
-    print("replayed %s: %d violations, drift=%s" % (r["shape"], len(r["violations"]), r["drift"]))
-    return 1 if r["violations"] else 0
-
-
-def main():
-    a = common.args(PROP)
-    if a.replay:
-        return replay_file(a.replay)
-    rep = evidence.Report(PROP, a.tier, a.seed)
-    quick = a.tier == "quick"
-    rng = random.Random(a.seed)
-    rep.rule = ("behaviour = edit/invocation/abort history from TLC (counterexamples of weakened mechanism models + "
-                "-simulate runs) replayed with real bob invocations; non-trivial = distinct (abort kind, step, "
-                "micro-operation) kill/fail points and recovery depths exercised on the real code; evaluations = real bob invocations")
-    rep.assumptions = ["step scripts are deterministic functions of their declared inputs (generated that way)",
-                       "kill -9 emulated by os._exit(137) of the Bob process between two recorded persistent-state updates, "
-                       "or by the running step script killing its parent",
-                       "develop mode, import SCM sources, local builds only (no archive/share)"]
-    # (A)
-    res = tlc.run("BobBuild", "BobBuild.cfg" if quick else "BobBuild_thorough.cfg", coverage=True, timeout=3000)
-    rep.add_tlc(res, "BobBuild exhaustive (Weak={})")
-    if res.violated:
-        rep.violation("model:" + res.violated, {"cex": [c[0] for c in res.cex]})
-    tlc.require_coverage(res, ACTIONS, "BobBuild.cfg")
-    for inv in ("ReachPruneThenOk", "ReachSkip"):
-        r2 = tlc.run("BobBuild", "BobBuild_reach_%s.cfg" % inv, timeout=600)
-        if r2.violated != inv:
-            raise tlc.TlcError("vacuity: %s not reachable" % inv)
-    # (B) targeted behaviours from weakened mechanisms
-    behaviours = []
-    for w in WEAK:
-        r = tlc.run("BobBuild", "BobBuild_weak_%s.cfg" % w, timeout=900)
-        if not r.printed:
-            raise tlc.TlcError("weakened model %s produced no counterexample (vacuous weakening)" % w)
-        rep.add_tlc(r, "BobBuild Weak={%s} (counterexample generation)" % w)
-        sel = select(r.printed, 7 if quick else 30, rng)
-        rep.extra.setdefault("weakened_model_counterexamples", {})[w] = {"found": len(r.printed), "replayed": len(sel)}
-        behaviours += [(h, "cex:" + w) for h in sel]
-    # simulate
-    num = 120 if quick else 800
-    g = tlc.run("BobBuild", "BobBuild_gen.cfg", workers=1, simulate="num=%d" % num, depth=160, seed=a.seed + 1, timeout=900)
-    sel = select(g.printed, 36 if quick else 250, rng,
-                 need=lambda h: any(x["a"] in ("Kill", "Fail") for x in h) and any(x["a"] == "End" for x in h))
-    behaviours += [(h, "simulate") for h in sel]
-    rep.extra["simulated"] = {"generated": len(g.printed), "replayed": len(sel)}
+    gf = out["genflags"]
+    self = select(gf.printed, 8 if quick else 100, rng,
+                  need=lambda h: (any(x["a"] in ("Kill", "Fail") for x in h) and any(x["a"] == "End" for x in h)
+                                  and any(x["a"] == "Begin" and x.get("flag", "plain") != "plain" for x in h)))
+    behaviours += [(h, "simulate-flags") for h in self]
+    rep.extra["simulated_flags"] = {"generated": len(gf.printed), "replayed": len(self)}
     cache = common.scratch("vf-c05-oracle-")
     tasks = []
     for i, (h, origin) in enumerate(behaviours):
